@@ -446,7 +446,10 @@ def build():
                   "Every check ends with the purity part (specs/Purity.tla, harness/purity.py): a recorded trace of representative public "
                   "calls of the property's functions - the call, the repeated call, the call after unrelated calls and the same call in a "
                   "forked fresh process - is validated by TLC against a memo-table machine (arguments untouched, same arguments -> same "
-                  "answer); a rejected line is a VIOLATION of the property the call belongs to. VERIF_NO_PURITY=1 skips it."),
+                  "answer); a rejected line is a VIOLATION of the property the call belongs to. VERIF_NO_PURITY=1 skips it. "
+                  "Departures from a growth specification on behaviour the property does not speak about (pool heuristics, INCLUDE look-up, "
+                  "card layout, resampled lengths, naming) are printed as SPEC-DEVIATION lines and recorded in the evidence; they never "
+                  "produce a VIOLATION line or a non-zero exit (DESIGN.md 9.65)."),
         "not_applicable": na,
     }
     with open(os.path.join(VERIF, "MANIFEST.json"), "w") as f:
